@@ -503,7 +503,7 @@ func checkF15(c *Ctx, r *Report) {
 						}
 						for _, cs := range pa.callSites(fn) {
 							if idx >= 0 && idx < len(cs.Common().Args) {
-								if _, isLookup := cs.Common().Args[idx].(*ssa.Lookup); isLookup {
+								if isOverrideElem(cs.Common().Args[idx]) {
 									found = true
 								}
 							}
@@ -860,6 +860,27 @@ func calledFromAny(fn *ssa.Function, set map[*ssa.Function]bool) bool {
 		})
 	}
 	return found
+}
+
+// isOverrideElem: v is an element of the override map - c.Overrides[k], or the
+// value variable of `for _, o := range c.Overrides`.
+func isOverrideElem(v ssa.Value) bool {
+	switch x := v.(type) {
+	case *ssa.Lookup:
+		return true
+	case *ssa.Extract:
+		nx, ok := x.Tuple.(*ssa.Next)
+		if !ok || nx.IsString || x.Index != 2 {
+			return false
+		}
+		rg, ok := nx.Iter.(*ssa.Range)
+		if !ok {
+			return false
+		}
+		_, isMap := rg.X.Type().Underlying().(*types.Map)
+		return isMap
+	}
+	return false
 }
 
 // expansionFamily: the methods of *Config that call os.Expand, and the
